@@ -49,7 +49,7 @@ Definition merge_len (pe ce : option Z) : option Z :=
   | Some a => match ce with None => Some a | Some b => Some (b + a) end
   end.
 
-(* try: keep.edge.length += del.edge.length  except: pass      (collapse_basal_bifurcation) *)
+(* try: child.edge.length += self.edge.length  except: pass      (Node.remove_child, suppressing) *)
 Definition try_add (k d : option Z) : option Z :=
   match k, d with Some x, Some y => Some (x + y) | _, _ => k end.
 
@@ -254,27 +254,33 @@ Definition su_step (s : tree * list (Z * Z)) (id : Z) : tree * list (Z * Z) :=
 
 Definition su_run (t : tree) : tree * list (Z * Z) := fold_left su_step (post_ids t) (t, []).
 
-(* ---- structural effect of Tree.update_bipartitions() = encode_bipartitions() with its default
-        arguments: collapse an unrooted basal bifurcation, then suppress unifurcations again ---- *)
+(* ---- structural effect of encode_bipartitions(): collapse an unrooted basal bifurcation, then
+        suppress unifurcations if asked to ---- *)
+(* collapse_basal_bifurcation: the removed basal edge's length goes to the kept basal edge
+     if to_del_edge.length is not None:
+         if to_keep.edge.length is None: to_keep.edge.length = to_del_edge.length
+         else: to_keep.edge.length += to_del_edge.length
+   i.e. the same rule as merge_len *)
 Definition collapse_basal (t : tree) : option tree :=
   match t_kids t with
   | [a; b] =>
     if (2 <=? Z.of_nat (length (t_kids b))) then
-      Some (set_kids t (set_len a (try_add (t_len a) (t_len b)) :: t_kids b))
+      Some (set_kids t (set_len a (merge_len (t_len b) (t_len a)) :: t_kids b))
     else if (2 <=? Z.of_nat (length (t_kids a))) then
-      Some (set_kids t (t_kids a ++ [set_len b (try_add (t_len b) (t_len a))]))
+      Some (set_kids t (t_kids a ++ [set_len b (merge_len (t_len a) (t_len b))]))
     else None
   | _ => None
   end.
 
 Definition rooted_true (r : option bool) : bool := match r with Some true => true | _ => false end.
 
-Definition encode_effect (rooted : option bool) (t : tree) : tree * option bool :=
+(* self.update_bipartitions(suppress_unifurcations=sup) = encode_bipartitions(suppress_unifurcations=sup) *)
+Definition encode_effect (sup : bool) (rooted : option bool) (t : tree) : tree * option bool :=
   let '(t1, r1) :=
     if negb (rooted_true rooted) then
       match collapse_basal t with Some t' => (t', Some false) | None => (t, rooted) end
     else (t, rooted) in
-  (fst (su_run t1), r1).
+  ((if sup then fst (su_run t1) else t1), r1).
 
 (* state of a Tree object as far as this property is concerned *)
 Definition tstate := (tree * option bool)%type.
@@ -283,7 +289,7 @@ Definition iout := (list Z * tree * option bool)%type.
 
 Definition finish (upd_bip sup : bool) (ret : list Z) (t : tree) (rooted : option bool) : iout :=
   let t2 := if sup then fst (su_run t) else t in
-  let '(t3, r3) := if upd_bip then encode_effect rooted t2 else (t2, rooted) in
+  let '(t3, r3) := if upd_bip then encode_effect sup rooted t2 else (t2, rooted) in
   (ret, t3, r3).
 
 (* ------------------------------------------------------------------------------------------ *)
@@ -491,8 +497,8 @@ Definition extract_subtree (flt : xfilter) (sup : bool) (has_parent : bool) (t :
 Definition extract_tree (flt : xfilter) (sup : bool) (t : tree) : xres :=
   extract_subtree flt sup false t.
 
-(* the four wrappers build a filter on node.taxon and call extract_tree WITHOUT passing their
-   suppress_unifurcations argument on: extract_tree's default (True) is what runs.
+(* the four wrappers build a filter on node.taxon and call extract_tree, handing their
+   suppress_unifurcations argument on.
    The filter is given as a predicate on the taxon; the ids it accepts are computed from the tree. *)
 Definition ids_where (p : npred) (t : tree) : list Z :=
   map t_id (filter (app_np p) (preorder t)).
@@ -512,8 +518,8 @@ Definition without_labels_p (ns : nspace) (labels : list Z) : npred :=
   fun _ x => match x with None => true
                      | Some a => match tax_label ns a with Some lb => negb (memz lb labels) | None => true end end.
 
-Definition extract_wrapper (p : npred) (sup_ignored : bool) (t : tree) : xres :=
-  extract_tree (Some (true, false, ids_where p t)) true t.
+Definition extract_wrapper (p : npred) (sup : bool) (t : tree) : xres :=
+  extract_tree (Some (true, false, ids_where p t)) sup t.
 
 Definition extract_tree_with_taxa (taxa : list Z) := extract_wrapper (with_taxa_p taxa).
 Definition extract_tree_without_taxa (taxa : list Z) := extract_wrapper (without_taxa_p taxa).
